@@ -119,16 +119,58 @@ theorem C09_partial_daily_of {d : Defects} (hl : d.lazyScan = false) (sigs : Con
           r'.count = (sigs g.room g.ent r.day).length ∧ r'.daily = dailyOf (sigs g.room g.ent r.day) :=
   recomputeFrom_marked_static hl sigs log Cursor.init
 
-/-- **C09_partial_daily (the code as it is).** Whatever the state of the table and of the cursor, every day
-    that is MARKED is recomputed to a row carrying the entry count and the daily hash of the content of
-    that day. Missing for the full statement: the history hash, days that were not marked although their
-    content changed, and rows of emptied days (witnesses below). -/
+/-- **C09_partial_daily (the code before the repairs of #20).** Whatever the state of the table and of the cursor,
+    every day that is MARKED is recomputed to a row carrying the entry count and the daily hash of the content of
+    that day. (Superseded for the code as it is by the full statements below.) -/
 theorem C09_partial_daily (sigs : Content) (log : Log) :
     ∀ g ∈ log, ∀ r ∈ g.rows, r.dirty = true →
-      ∃ g' ∈ recompute Defects.asImplemented sigs log, g'.room = g.room ∧ g'.ent = g.ent ∧
+      ∃ g' ∈ recompute Defects.beforeFixHistory sigs log, g'.room = g.room ∧ g'.ent = g.ent ∧
         ∃ r' ∈ g'.rows, r'.day = r.day ∧ r'.dirty = false ∧
           r'.count = (sigs g.room g.ent r.day).length ∧ r'.daily = dailyOf (sigs g.room g.ent r.day) :=
   fun g hg r hr hd => C09_partial_daily_of rfl sigs log g hg r hr hd (Or.inl rfl)
+
+/-! ### … and for the code as it is (since the repairs `fix: the daily log chain continues from the stored hashes of
+the day before the first day to recompute`, `fix: the daily log chain of an entity never continues the chain of another
+entity`, `fix: a day that holds nothing any more has no daily log row`) -/
+
+theorem Defects.asImplemented_logRepaired : Defects.asImplemented.LogRepaired := ⟨rfl, rfl, rfl, rfl⟩
+
+/-- **C09 (recomputation barrier), the code as it is.** -/
+theorem C09_barrier_asImplemented {sigs : Content} {log : Log} (h : WInv sigs noPending log) :
+    IsLogOf sigs (recompute Defects.asImplemented sigs log) :=
+  C09_barrier_of Defects.asImplemented_logRepaired h
+
+/-- **C09 (invariant over any schedule), the code as it is.** -/
+theorem C09_invariant_asImplemented (steps : List Step) (hok : runOk Defects.asImplemented St.init steps) :
+    WInv (run Defects.asImplemented St.init steps).sigs (pendOf (run Defects.asImplemented St.init steps).pend)
+      (run Defects.asImplemented St.init steps).log :=
+  C09_invariant_of Defects.asImplemented_logRepaired steps hok
+
+/-- **C09 (the log is a function of the content), the code as it is**: count, daily hash and history hash of every
+    `(room, entity, day)` equal those computed from scratch over what is stored, no row for a day without content,
+    after any schedule of marked writes, batches and recomputation points, once the pending recomputation has run. -/
+theorem C09_log_of_content_asImplemented (steps : List Step) (hok : runOk Defects.asImplemented St.init steps) :
+    IsLogOf (run Defects.asImplemented St.init steps).sigs
+      (run Defects.asImplemented St.init (steps ++ [.commit, .compute])).log :=
+  C09_log_of_content_of Defects.asImplemented_logRepaired steps hok
+
+/-- **C09 (equal content ⇒ equal logs, whatever order or batching produced them), the code as it is.** -/
+theorem C09_equal_content_equal_log_asImplemented (s1 s2 : List Step) (h1 : runOk Defects.asImplemented St.init s1)
+    (h2 : runOk Defects.asImplemented St.init s2)
+    (hc : ∀ r e d, ((run Defects.asImplemented St.init s1).sigs r e d).Perm
+      ((run Defects.asImplemented St.init s2).sigs r e d)) :
+    (run Defects.asImplemented St.init (s1 ++ [.commit, .compute])).log =
+      (run Defects.asImplemented St.init (s2 ++ [.commit, .compute])).log :=
+  C09_equal_content_equal_log_of Defects.asImplemented_logRepaired s1 s2 h1 h2 hc
+
+/-- **C09 (different content ⇒ different logs), the code as it is.** -/
+theorem C09_equal_log_equal_content_asImplemented (s1 s2 : List Step) (h1 : runOk Defects.asImplemented St.init s1)
+    (h2 : runOk Defects.asImplemented St.init s2)
+    (hl : (run Defects.asImplemented St.init (s1 ++ [.commit, .compute])).log =
+      (run Defects.asImplemented St.init (s2 ++ [.commit, .compute])).log) :
+    ∀ r e d, ((run Defects.asImplemented St.init s1).sigs r e d).Perm
+      ((run Defects.asImplemented St.init s2).sigs r e d) :=
+  C09_equal_log_equal_content_of Defects.asImplemented_logRepaired s1 s2 h1 h2 hl
 
 /-- **C09 (the window of `compute` is modelled literally).** On a group whose rows are in day order (the primary key
     order, part of the invariant), the rows the model of the loop walks are exactly those the SQL text selects —
@@ -142,7 +184,7 @@ theorem C09_window_is_sql_window {d : Defects} (hl : d.lazyScan = false) (sigs :
             { g with rows := untouchedSql g.rows ++ (walkRows d sigs g.room g.ent c (windowSql g.rows)).2 }) :=
   recomputeGroup_sql hl sigs c hs
 
-/-! ### witnesses: the code as it is does not satisfy the full statement -/
+/-! ### witnesses: the code before the repairs of #20 did not satisfy the full statement (regression witnesses) -/
 
 def k10 : Key := { room := 1, ent := 0, day := 0 }
 def k11 : Key := { room := 1, ent := 0, day := 1 }
@@ -218,9 +260,8 @@ theorem C09_breaks_lazyScan_stale :
         (twoDays ++ [.write (contentOf [(k10, 7), (k11, 6)]) [k10], .commit, .compute])).log := by
   decide
 
-/-- the code as it is, all switches on, on the same two schedules: equal content, different tables -/
-theorem C09_breaks_asImplemented :
-    (run Defects.asImplemented St.init twoDays).log ≠ (run Defects.asImplemented St.init twoDaysAtOnce).log := by
+/-- the code as it is, on the same two schedules: equal content, equal tables -/
+example : (run Defects.asImplemented St.init twoDays).log = (run Defects.asImplemented St.init twoDaysAtOnce).log := by
   decide
 
 /-- the code before the three repairs of #20, all switches on, on the same two schedules: equal content,
@@ -278,6 +319,19 @@ example :
                                           hist := some (.daily [9]), dirty := false }] }] := by
   decide
 
+/-- the same for the code as it is -/
+example :
+    runOk Defects.asImplemented St.init emptiedDays ∧ runOk Defects.asImplemented St.init emptiedDaysAtOnce ∧
+    (run Defects.asImplemented St.init (emptiedDays ++ [.commit, .compute])).log =
+      (run Defects.asImplemented St.init (emptiedDaysAtOnce ++ [.commit, .compute])).log := by
+  refine ⟨⟨?_, trivial, trivial, ?_, trivial, trivial, ?_, trivial, trivial, ?_, trivial, trivial, ?_, trivial, trivial,
+    trivial⟩, ⟨contentOf_marks_ok [] _ _ (by decide), trivial⟩, by decide⟩
+  · exact contentOf_marks_ok [] _ _ (by decide)
+  · exact contentOf_marks_ok [(k10, 5)] _ _ (by decide)
+  · exact contentOf_marks_ok [(k10, 5), (k11, 6), (kp0, 9)] _ _ (by decide)
+  · exact contentOf_marks_ok [(k10, 5), (k11, 6), (kp0, 9), (k12, 7)] _ _ (by decide)
+  · exact contentOf_marks_ok [(k11, 6), (kp0, 9), (k12, 7)] _ _ (by decide)
+
 /-- the code before the repairs ends the same schedule with rows for the emptied days and another history -/
 example :
     (run Defects.beforeFixHistory St.init (emptiedDays ++ [.commit, .compute])).log ≠
@@ -332,11 +386,15 @@ theorem C09_model_compute (r : Replica) (h : WInv r.sigs noPending r.log) :
     IsLogOf r.sigs (recompute Defects.none r.sigs r.log) :=
   C09_barrier h
 
+/-- **C09 (recomputation of the model, the code as it is).** -/
+theorem C09_model_compute_asImplemented (r : Replica) (h : WInv r.sigs noPending r.log) :
+    IsLogOf r.sigs (recompute Defects.asImplemented r.sigs r.log) :=
+  C09_barrier_asImplemented h
+
 /-- **C09 (the code as it is marks every day it touches).** Since the fixes 8123d04, 1a9cbe6, 9b21e0a and 456214b the
     three statements above hold for `Defects.asImplemented` as well: every local write, every synchronised row and
-    every synchronised deletion record of the model of the code marks the days whose content it changes. (What is
-    left of C09's defects concerns the history hashes only: `C09_breaks_historySeedDropped`,
-    `C09_breaks_entityNotCompared`, `C09_breaks_emptyDayRow`.) -/
+    every synchronised deletion record of the model of the code marks the days whose content it changes; with
+    `C09_model_compute_asImplemented` the recomputation that follows yields the log of the stored content. -/
 theorem C09_model_marks_asImplemented :
     (∀ (w : World) (cur : Replica), IdsNodup cur → WInv cur.sigs noPending cur.log → ∀ (p : Nat) (op : WOp),
       WInv (effectOf Defects.asImplemented w cur cur p op).cur.sigs noPending
